@@ -16,6 +16,40 @@ FS_TB = ["the operating system: a completed write/rename/remove is visible to a 
 FS_SKEL = ["wal:WAL.Write", "wal:WAL.Delete", "wal:Create", "wal:WAL.Read", "levelManager.writeTable", "levelManager.flushToL0", "levelManager.compactL0",
            "levelManager.compactLN", "levelManager.recover", "memtable.recover", "memtable.set", "DB.flushImmutable", "DB.Close", "DB.run", "DB.rawset", "Open"]
 
+
+# ---- which declarations of /repo each model is a hand translation of (prefixes of "dir:Name" keys of golden/bodies.txt) ----
+B_KEYS = ["types:"]
+B_SKIP = ["pkg/skiplist:"]
+B_FILTER = ["pkg/filter:", "utils:Hash"]
+B_WM = ["pkg/watermark:"]
+B_TABLE = ["table:", "utils:LCP", "utils:Compress", "utils:Decompress", "utils:Magic", "pkg/bufferpool:"]
+B_KWAY = ["pkg/kway:"]
+B_WAL = ["wal:", "utils:TMarshal", "utils:TUnmarshal"]
+B_LEVEL = [".:levelManager.", ".:parseFileName", ".:boundary", ".:newLevelManager", ".:const:_tmpSuffix", "utils:Pow"]
+B_MEM = [".:memtable.", ".:newMemtable"]
+B_DB = [".:DB.", ".:Open", ".:Config.validate", ".:const:_,StateInitialize", ".:var:ErrMkDir", ".:var:DefaultConfig"]
+B_TXN = [".:Txn.", ".:var:ErrReadOnlyTxn", ".:const:MaxKeySize"]
+B_ORACLE = [".:oracle.", ".:newOracle"]
+MODEL_SOURCE = {
+    "C01": B_KEYS + B_SKIP + B_FILTER + B_TABLE + B_KWAY + B_LEVEL + B_MEM + B_DB,
+    "C02": B_KEYS + B_SKIP + B_FILTER + B_TABLE + B_KWAY + B_LEVEL + B_MEM + B_DB + B_WAL,
+    "C03": B_KEYS + B_TABLE + B_WAL + B_LEVEL + B_MEM + B_DB + B_TXN,
+    "C04": B_KEYS + B_TABLE + B_WAL + B_LEVEL + B_MEM + B_DB + B_TXN,
+    "C14": B_KEYS + B_TABLE + B_WAL + B_LEVEL + B_MEM + B_DB + B_TXN,
+    "C05": B_KEYS + B_TXN + B_ORACLE + B_WM + B_DB + B_MEM,
+    "C06": B_TXN + B_ORACLE + B_WM + B_DB,
+    "C07": B_TXN + B_ORACLE + B_WM + B_DB,
+    "C08": B_TXN + B_ORACLE + B_WM + B_DB,
+    "C09": B_KEYS + B_TABLE + B_KWAY + B_LEVEL + [".:oracle.discardAtOrBelow"],
+    "C10": B_KEYS + B_TABLE + B_FILTER + B_LEVEL,
+    "C11": B_KEYS + B_TABLE + B_WAL,
+    "C12": B_KEYS + B_SKIP + B_FILTER + B_WM + B_TABLE + B_KWAY + B_WAL + B_LEVEL + B_MEM + B_DB + B_TXN + B_ORACLE,
+    "C13": B_WM,
+    "C15": B_DB + B_TXN + B_ORACLE + B_WM + [".:memtable.set", ".:memtable.freeze", ".:memtable.reset"],
+    "C16": B_FILTER,
+    "C17": B_SKIP + B_KEYS,
+}
+
 PROPS = {
     "C01": {
         "lean": "Originium.Props.C01",
@@ -98,7 +132,7 @@ PROPS = {
         "suites": ["key", "levels"],
         "skeleton_funcs": [],
         "trusted_base": COMMON_TB + ["S2 compression and the on-disk codec are exercised by the suite, proved separately in C11",
-                                     "kway.MergeVersions is modelled observationally (sorted, later list wins); container/heap and map iteration are not modelled"],
+                                     "kway.MergeVersions: the specification (sorted, later list wins) is proved equal to the heap merge of the code for any minimum heap.Pop returns (Kway.run_eq_spec); container/heap (returns a minimum w.r.t. Less), the Go map and slices.SortFunc are trusted"],
         "assumptions": ["two entries with the same versioned key are identical (a versioned key is written once); the choice of compaction inputs is arbitrary in the theorem"],
         "explanation": "theorems C09_* over LSM.compactOutput/search for all table sets, watermarks and block sizes; implementation tied by the levels suite (flushToL0/checkAndCompact/recover/searchLowerBound vs model and brute-force spec)",
     },
@@ -172,3 +206,6 @@ PROPS = {
         "explanation": "level-descending search proved to find the first node >= target for all heights; refinement to a sorted association list",
     },
 }
+
+for _k, _v in MODEL_SOURCE.items():
+    PROPS[_k]["model_source"] = _v
